@@ -44,12 +44,23 @@ def op_tla(o):
 
 
 def candidates(name):
-    """candidate .do files of a target in a flat project, best first (paths.rs)"""
-    out = [name + '.do']
-    for i, c in enumerate(name):
+    """candidate .do files of a project-relative target, best first (paths.rs): in the target's directory the
+    specific rule and the default.<ext>.do from the longest extension to the shortest, then default.do, then the
+    same defaults in every ancestor directory up to the project top"""
+    import posixpath
+    d, base = posixpath.split(name)
+    pre = (d + '/') if d else ''
+    out = [pre + base + '.do']
+    defaults = []
+    for i, c in enumerate(base):
         if c == '.':
-            out.append('default' + name[i:] + '.do')
-    out.append('default.do')
+            defaults.append('default' + base[i:] + '.do')
+    defaults.append('default.do')
+    while True:
+        out += [((d + '/') if d else '') + x for x in defaults]
+        if not d:
+            break
+        d = posixpath.dirname(d)
     return out
 
 
@@ -84,6 +95,7 @@ def prog_constants(p, j=1, max_hist=4, max_cmds=3, unlocked_bug=False, selfdep_p
     d['UserFiles'] = sset([s(x) for x in p.get('user', [])])
     d['RmFiles'] = sset([s(x) for x in p.get('rm', [])])
     d['DoEdits'] = sset([s(x) for x in p.get('doedits', [])])
+    d['TmpFiles'] = sset([s(x) for x in p.get('tmpfiles', [])])
     d['MaxHist'] = str(max_hist)
     d['MaxCmds'] = str(max_cmds)
     d['UnlockedBug'] = 'TRUE' if unlocked_bug else 'FALSE'
@@ -286,6 +298,10 @@ def output_family():
         outputs('outE', [('nothing', 0), ('stdout', -9), ('stdout', 0)]),
         outputs('outF', [('file', 0), ('direct', 4), ('nothing', 3)]),
         outputs('outG', [('both', 2), ('file+stdout', 0), ('stdout', 0)], user_t=False),
+        outputs('outH', [('stdout', 0), ('directold', 0), ('directold+stdout', 0)], user_t=False),
+        outputs('outI', [('file', 0), ('directold+file', 0), ('stdout', 0)], user_t=False),
+        dict(outputs('outJ', [('stdout', 0), ('nothing', 0), ('file', 0)], user_t=False), tmpfiles=['t'], doedits=['t.do'], user=[], rm=[]),
+        dict(outputs('outK', [('file', 0), ('stdout', 4), ('stdout', 0)], user_t=False), tmpfiles=['t'], user=['s'], rm=[]),
     ]]
 
 
@@ -379,6 +395,23 @@ def fail_diamond():
         'cmds': [('ifchange', ['P', 'Q', 'R'], True), ('ifchange', ['P', 'Q', 'R'], False), ('redo', ['Q', 'P'], True)],
         'user': [], 'rm': [], 'doedits': ['A.do'],
         'bounds': (4, 3),
+    }
+
+
+def subdirs():
+    """targets in a subdirectory: a specific rule beside the target that refers to ../s, the top-level default.do
+    building into the subdirectory, and a sub/default.do that can be added (takes over) and removed again"""
+    return {
+        'name': 'subdirs',
+        'plain': ['s', 'sub/x', 'sub/y', 'top'],
+        'rules': {'sub/x.do': [{'sub/x': [ifchange('s'), out('stdout', 's')]}],
+                  'default.do': [{'sub/y': [ifchange('sub/x'), out('file', 'sub/x')],
+                                  'top': [ifchange('sub/y', 'sub/x'), out('stdout', 'sub/y', 'sub/x')]}],
+                  'sub/default.do': [{'sub/y': [ifchange('sub/x', 's'), out('stdout', 'sub/x', 's')]}]},
+        'init': ['s', 'sub/x.do', 'default.do'],
+        'cmds': [('ifchange', ['top'], False), ('ifchange', ['sub/y'], False)],
+        'user': ['s'], 'rm': ['sub/x'], 'doedits': ['sub/default.do'],
+        'bounds': (5, 3),
     }
 
 
@@ -523,7 +556,7 @@ def crash_family(window=False, stamp_window=False):
     return out_
 
 
-FAMILY_DEEP = [fail_diamond, override2, stamp_toggle, stamped_deep, ifcreate_deep, do_recreate]
+FAMILY_DEEP = [fail_diamond, override2, stamp_toggle, stamped_deep, ifcreate_deep, do_recreate, subdirs]
 
 
 def deep_programs():
